@@ -1588,3 +1588,6 @@ func vProcOp(t []string) string {
 	}
 	return "bad-op"
 }
+
+// VerifSetConnectBackoff: the processor's back-off between connect attempts (engine race: overlapping attempts)
+func VerifSetConnectBackoff(p *Processor, d time.Duration) { p.appConnectBackoff = d }
